@@ -24,7 +24,9 @@ ASSUMPTIONS = ['play() runs with time.sleep and now replaced by a fake clock']
 
 
 def pool_msg(k, tm):
-    k = k % 7
+    k = k % 8
+    if k == 7:
+        return {'type': 'lyrics', 'text': 'é', 'time': tm}
     if k == 0:
         return {'type': 'note_on', 'channel': 0, 'note': 60, 'velocity': 64, 'time': tm}
     if k == 1:
@@ -99,13 +101,59 @@ def observe(mid, what):
 
 
 def fresh(model):
-    return mido.MidiFile(type=model['type'], ticks_per_beat=model['tpb'],
+    return mido.MidiFile(type=model['type'], ticks_per_beat=model['tpb'], charset=model.get('charset', 'latin1'),
                          tracks=[mido.MidiTrack([M.to_mido(d) for d in tr]) for tr in model['tracks']])
+
+
+def reference(model, what):
+    """The observation computed without mido's file logic (reference merge, exact tempo map, reference SMF encoder);
+    None when the reference does not apply.  Guards against state that poisons the fresh file as well."""
+    from fractions import Fraction
+    from lib import refsmf as F
+    if model['type'] == 2 and what != 'save':
+        return None
+    if what == 'merged':
+        return [(d['type'], d['time']) for d in F.merge_model(model['tracks'])]
+    if what in ('length', 'iter'):
+        tempo = 500000
+        cum = Fraction(0)
+        times = []
+        for d in F.merge_model(model['tracks']):
+            ds = Fraction(d['time'] * tempo, 10 ** 6 * model['tpb'])
+            cum += ds
+            times.append((d['type'], float(ds)))
+            if d['type'] == 'set_tempo':
+                tempo = d['tempo']
+        return float(cum) if what == 'length' else times
+    if what == 'save':
+        if model['type'] == 0 and len(model['tracks']) != 1:
+            return None
+        tracks = [F.canon_track(t) for t in model['tracks']]
+        try:
+            return F.encode_file(model['type'], model['tpb'], tracks, {'ev': [[[True, 0, 0] for _ in t] for t in tracks]},
+                                 charset=model.get('charset', 'latin1'))[0]
+        except UnicodeEncodeError:
+            return None
+    return None
+
+
+def agrees(got, ref, what):
+    if what == 'save':
+        return got == ref
+    if what == 'length':
+        return abs(got - ref) <= 1e-9 * max(1.0, abs(ref))
+    if what == 'merged':
+        return [(t, v['time']) for t, v in [(v['type'], v) for _, v in got]] == ref
+    if what == 'iter':
+        g = [(v['type'], v['time']) for _, v in got]
+        return len(g) == len(ref) and all(a[0] == b[0] and abs(a[1] - b[1]) <= 1e-9 * max(1.0, abs(b[1]))
+                                          for a, b in zip(g, ref))
+    return True
 
 
 class Interp:
     def __init__(self):
-        self.model = {'type': 1, 'tpb': 480, 'tracks': []}
+        self.model = {'type': 1, 'tpb': 480, 'tracks': [], 'charset': 'latin1'}
         self.mid = mido.MidiFile(type=1, ticks_per_beat=480)
         self.fails = []
         self.observed = False
@@ -222,6 +270,20 @@ class Interp:
                 mid.ticks_per_beat = op[1]
                 model['tpb'] = op[1]
                 self._edit()
+            elif kind == 'charset':
+                mid.charset = op[1]
+                model['charset'] = op[1]
+                self._edit()
+            elif kind == 'poke_merged':
+                # the caller scribbles on a RESULT (the merged track it was handed): the file itself is unchanged
+                try:
+                    mt = mid.merged_track
+                    if len(mt):
+                        mt[-1].time = mt[-1].time + 480
+                        mt[0].time = mt[0].time + 3
+                except TypeError:
+                    pass
+                self._edit()
             elif kind == 'observe':
                 what = op[1]
                 got = observe(mid, what)
@@ -229,6 +291,11 @@ class Interp:
                 if got != want:
                     self._fail('stale-observation', f'{what}: edited file gives {str(got)[:300]}, fresh file with the '
                                                     f'same contents gives {str(want)[:300]}', what=what)
+                elif got[0] == 'ok':
+                    ref = reference(model, what)
+                    if ref is not None and not agrees(got[1], ref, what):
+                        self._fail('wrong-observation', f'{what}: file and fresh file agree on {str(got[1])[:200]} but the '
+                                                        f'independent reference gives {str(ref)[:200]}', what=what)
                 if self.edited_after_obs:
                     self.nt = True
                 self.observed = True
@@ -259,7 +326,7 @@ def nontrivial(case):
 
 
 _CTX = None
-MSG = st.tuples(st.integers(0, 6), st.sampled_from([0, 0, 1, 120, 480, 960])).map(list)
+MSG = st.tuples(st.integers(0, 7), st.sampled_from([0, 0, 1, 120, 480, 960])).map(list)
 TIMES = st.sampled_from([0, 1, 120, 480, 960, 2000])
 
 
@@ -333,6 +400,14 @@ class FileMachine(RuleBasedStateMachine):
     def set_tpb(self, v):
         self.ops.append(['tpb', v])
 
+    @rule(cs=st.sampled_from(['latin1', 'utf-8', 'cp1252', 'utf-16']))
+    def set_charset(self, cs):
+        self.ops.append(['charset', cs])
+
+    @rule()
+    def poke_merged(self):
+        self.ops.append(['poke_merged'])
+
     @rule(what=st.sampled_from(['iter', 'length', 'merged', 'play', 'save', 'play-abandoned', 'iter-abandoned']))
     def observe(self, what):
         self.ops.append(['observe', what])
@@ -358,7 +433,7 @@ def main(ctx):
     # the documented two-message example and its variants, for every observation pair
     for first in ('length', 'iter', 'merged', 'play', 'save', 'play-abandoned', 'iter-abandoned'):
         for second in ('length', 'iter', 'merged', 'play', 'save'):
-            for edit in (['msg_append', 0, 1, 480], ['msg_set', 0, 0, 'time', 960], ['msg_set', 0, 0, 'field', 5],
+            for edit in (['poke_merged'], ['charset', 'utf-8'], ['msg_append', 0, 7, 10], ['msg_append', 0, 1, 480], ['msg_set', 0, 0, 'time', 960], ['msg_set', 0, 0, 'field', 5],
                          ['msg_replace', 0, 3, 0, 0], ['tracks_append', [[0, 480]]], ['tpb', 96], ['msg_del', 0, 0],
                          ['tracks_replace', 0], ['name', 0, 'q']):
                 ctx.check({'ops': [['add_track', None], ['msg_append', 0, 0, 480], ['msg_append', 0, 2, 0],
